@@ -4,8 +4,12 @@ from .. import nodegen
 from ._nodecommon import *
 
 ID = "C09"
-LEAN_MODULES = ["VpnCloud.Proofs.C09"]
-THEOREMS = ["VpnCloud.Proofs.C09." + n for n in ("dispatch_reaches_session", "dispatch_any_pending", "dispatch_original_false")]
+LEAN_MODULES = ["VpnCloud.Proofs.C09", "VpnCloud.Proofs.C09More"]
+THEOREMS = ["VpnCloud.Proofs.C09." + n for n in ("dispatch_reaches_session", "dispatch_any_pending", "dispatch_original_false")] + [
+    "VpnCloud.Proofs.C09More." + n for n in ("other_source_keeps_session", "other_source_claims_swept", "other_source_keeps_claims", "original_claims_false",
+        "rejected_keeps_session", "rejected_session_fields", "rejected_by_core_keeps_session", "forged_data_keeps_peer", "fresh_attempt_never_completes",
+        "replayed_handshake_keeps_session", "pending_handles_handshake", "pending_expiry_keeps_peer", "pending_expiry_keeps_healthy_peer",
+        "pendLoop_touches_only_pending")]
 RULE = ("suite node: for every datagram seen on the wire during establishment and operation of a 2-3 node mesh: re-injection at later time offsets from {0,1,2,5,30,59,61,90,119,121,300,600} s "
         "(a subset in quick), with source in {original, another peer, unknown}, verbatim and with single-field edits; then a probe phase of one frame per second both ways; "
         "distinct non-trivial = distinct (op, #datagrams out, #interface writes, #peers, #pending, mutation kind)")
